@@ -185,7 +185,23 @@ def describe(case, ev, detail):
 
 
 def judge(chk, cases):
-    raw = vlib.run_cases("sst", cases, timeout=60)
+    # batches: a library in which savers block each other makes every schedule end in the driver's own time-outs
+    # (some 30 s per case); a handful of them is a verdict, thousands would only cost hours
+    raw, ran, hung = [], [], 0
+    k = 0
+    while k < len(cases):
+        size = 24 if k == 0 else 400          # a small first batch: a library that hangs everywhere is seen in a minute
+        part = cases[k:k + size]
+        k += size
+        got = vlib.run_cases("sst", part, timeout=60, jobs=12)
+        raw += got
+        ran += part
+        hung += sum(1 for evs in got if any(e.get("outcome") == "timeout" for e in evs))
+        if hung >= 8 and k < len(cases):
+            chk.extra["stopped_after_hanging_cases"] = {"hung": hung, "cases_run": len(ran), "cases_planned": len(cases)}
+            vlib.log(f"[c16] {hung} cases hung: the remaining {len(cases) - len(ran)} cases are not run")
+            break
+    cases = ran
     events = [to_trace(c, e) for c, e in zip(cases, raw)]
     out = vlib.validate("Trace_ConcSave", "Trace_ConcSave.cfg", events, chk.open_ids, "c16", chunk_events=4000)
     first = {}
